@@ -43,3 +43,48 @@ theorem ofFen_epRankOk {s : List Char} {g : Game} (h : Game.ofFen s = .ok g) : S
     · rw [if_neg hb] at hsd; cases hsd
 
 end Chess
+
+namespace Chess
+open Chess.Game
+
+/-- converse of `FenChk.pawnOnEdge_of_spec` -/
+theorem noEdgePawns_of_board {a : Spec.APos} (h : pawnOnEdge a.board = false) :
+    Spec.noEdgePawns a = true := by
+  unfold pawnOnEdge at h
+  unfold Spec.noEdgePawns
+  rw [List.any_eq_false] at h
+  rw [List.all_eq_true]
+  intro c hc
+  have hc8 : c < 8 := by simpa using hc
+  have := h c hc
+  have e0 : a.at (0, (c : Int)) = a.board[c] := by
+    have := FenChk.at_ofIdx a c (by omega)
+    have h1 : c / 8 = 0 := by omega
+    have h2 : c % 8 = c := by omega
+    rw [h1, h2] at this
+    exact this
+  have e7 : a.at (7, (c : Int)) = a.board[56 + c] := by
+    have := FenChk.at_ofIdx a (56 + c) (by omega)
+    have h1 : (56 + c) / 8 = 7 := by omega
+    have h2 : (56 + c) % 8 = c := by omega
+    rw [h1, h2] at this
+    exact this
+  rw [e0, e7]
+  have g0 : a.board[c]? = some a.board[c] := by simp
+  have g7 : a.board[56 + c]? = some a.board[56 + c] := by
+    have : 56 + c < 64 := by omega
+    simp [this]
+  rw [g0, g7] at this
+  cases h0 : a.board[c] <;> cases h7 : a.board[56 + c] <;> simp_all
+
+/-- an accepted text has no pawn on the first or the last rank -/
+theorem ofFen_noEdgePawns {s : List Char} {g : Game} (h : Game.ofFen s = .ok g) :
+    Spec.noEdgePawns g.abs = true := by
+  obtain ⟨pieces, side, cast, ep, rest, sc, player, st0, st, wk, bk, _, _, _, _, _, _, _, _, _, _, _,
+    hpe, _, _, rfl⟩ := ofFen_ok_inv h
+  rw [updatePhase_abs]
+  apply noEdgePawns_of_board
+  rw [mkGame_abs]
+  exact hpe
+
+end Chess
